@@ -28,6 +28,10 @@ type VerifUPackerCfg struct {
 	ConfStore  TokenStore // Config.TokenStore before the spec is applied (may be nil)
 	Version    uint32
 	MaxCalls   int
+	// FirstPNOffset > 0: the connection a Dial re-creates after Version Negotiation -- doDial
+	// seeds the Initial packet number space with the previous connection's next packet number
+	// (InitPacketNumber + offset) while the length list stays based on InitPacketNumber
+	FirstPNOffset int64
 }
 
 // VerifUPackerDatagram is the result of one PackCoalescedPacket call.
@@ -102,6 +106,7 @@ func VerifUPackerFlight(c VerifUPackerCfg) (info VerifUPackerInfo, out []VerifUP
 	spec.UpdateConfig(conf)
 	initialPN := ips.initialPN()
 	info.InitialPN = int64(initialPN)
+	initialPN += protocol.PacketNumber(c.FirstPNOffset) // params.nextPacketNumber of doDial's re-creation
 
 	// --- as newUClientConnection ---
 	initialStream := newInitialCryptoStream(true)
